@@ -253,8 +253,10 @@ _SPLIT_RE = re.compile(r"^Iteration (\d+): Split cluster (\d+) into (\d+) and (\
 _STOP_RE = re.compile(r"^No further splits accepted after (\d+) iterations")
 
 
-def replay_state(ck, np, cluster, st, variant, predicted_tbl, stats):
-    """Replay one terminal spec state (pc = done) into the real HierarchicalGaussianMixture."""
+def replay_state(ck, np, cluster, st, variant, predicted_tbl, stats, history=None):
+    """Replay one terminal spec state (pc = done) into the real HierarchicalGaussianMixture.  With `history`, every other
+    behaviour is replayed into the object a PREVIOUS behaviour of the same configuration was fitted and queried on
+    (action Refit of HGMSplit: fit -> predict -> fit on other data -> predict on one object)."""
     n, mp, mi = st["n"], st["minPts"], st["maxIter"]
     log = list(st["log"])
     # configuration variant
@@ -272,13 +274,24 @@ def replay_state(ck, np, cluster, st, variant, predicted_tbl, stats):
     sc = Script(np, log, n, d, ctype, variant)
     sc.cov_variant = "good"
     Fake = make_fake(sc)
-    hgm = cluster.HierarchicalGaussianMixture(
-        n_init=1, max_iterations=mi, min_points=None if use_none else mp, threshold_modifier=modifier,
-        covariance_type=ctype, verbose=True, normalize=normalize)
+    hkey = (d, normalize, ctype, modifier, use_none, mp, mi)
+    prev = history.get(hkey) if history is not None else None
+    reused = prev is not None and (variant // 2) % 3 != 0   # two of three behaviours refit an existing object
+    if reused:
+        hgm, prev_K, prev_rep = prev
+        stats["refits"] = stats.get("refits", 0) + 1
+        if st["K"] < prev_K:
+            stats["refits_K_decreased"] = stats.get("refits_K_decreased", 0) + 1
+    else:
+        hgm = cluster.HierarchicalGaussianMixture(
+            n_init=1, max_iterations=mi, min_points=None if use_none else mp, threshold_modifier=modifier,
+            covariance_type=ctype, verbose=True, normalize=normalize)
     sc.hgm = hgm
     rep = {"state": {k: st[k] for k in ("n", "minPts", "maxIter", "clusters", "labels", "K", "log", "splits")},
            "variant": variant, "config": dict(d=d, normalize=normalize, covariance_type=ctype, threshold_modifier=modifier,
-                                             min_points=None if use_none else mp, max_iterations=mi, spacing=spacing)}
+                                             min_points=None if use_none else mp, max_iterations=mi, spacing=spacing),
+           "refit_of_object_previously_fitted_with_K": prev[1] if reused else None,
+           "previous_behaviour_on_the_same_object": prev[2] if reused else None}
     real = cluster.GaussianMixture
     out = io.StringIO()
     cluster.GaussianMixture = Fake
@@ -387,6 +400,8 @@ def replay_state(ck, np, cluster, st, variant, predicted_tbl, stats):
                     ck.violation(key, f"predict({Q[i].tolist()}) = {g}, spec allows {sorted(allowed)} (K={K}, {kind} query, cov {cv})",
                                  dict(rep, query=Q[i].tolist()))
                     return
+        if history is not None:
+            history[hkey] = (hgm, K, {"state": rep["state"], "variant": variant})
         if len(ck.samples) < 2 and len(want_splits) >= 2:
             ck.sample({"binding": "B", "n": n, "min_points": mp, "max_iterations": mi, "config": rep["config"],
                        "oracle_log": [{k: (sorted(v) if isinstance(v, frozenset) else v) for k, v in e.items()} for e in log],
@@ -422,13 +437,14 @@ def _replay_chunk(args):
     blocks, start, nvariants, predicted, seed, tier = args
     np, cluster = _G["np"], _G["cluster"]
     col = Collector(seed, tier)
-    stats = {"replayed": 0, "with_split": 0, "predictions": 0, "centre_exact": 0}
+    stats = {"replayed": 0, "with_split": 0, "predictions": 0, "centre_exact": 0, "refits": 0, "refits_K_decreased": 0}
     nontrivial = set()
+    history = {}
     for j, blk in enumerate(blocks):
         st = tla.parse_state_block(blk)
         for v in range(nvariants):
             variant = ((start + j) * 7 + v * 13 + seed) % 840
-            replay_state(col, np, cluster, st, variant, predicted, stats)
+            replay_state(col, np, cluster, st, variant, predicted, stats, history)
         if st["splits"]:
             nontrivial.add(hash((st["n"], st["minPts"], st["maxIter"], _freeze_log(st["log"]))))
     return stats, nontrivial, col.violations, col.samples
@@ -1289,19 +1305,30 @@ def do_replay(ck, path):
             if fails.get(1) and not excluded:
                 ck.violation(rec["key"], rec["what"], rp)
     elif "state" in rp:      # binding B
-        def fz(v):
-            return frozenset(v) if isinstance(v, list) else v
-        st = dict(rp["state"])
-        st["clusters"] = tuple(frozenset(c) for c in st["clusters"])
-        st["log"] = tuple({k: (frozenset(v) if k in ("ids", "c1") else v) for k, v in e.items()} for e in st["log"])
-        st["splits"] = tuple({k: (frozenset(v) if k in ("ids", "c1", "c2") else v) for k, v in e.items()} for e in st["splits"])
-        st["labels"] = tuple(st["labels"])
-        st["iter"] = max([e["it"] for e in st["log"]] + [0])
-        K = st["K"]
-        tbl = {(st["clusters"], "any", -1): set(range(K))}
-        tbl.update({(st["clusters"], "centre", k): {k} for k in range(K)})
+        def thaw(state):
+            st = dict(state)
+            st["clusters"] = tuple(frozenset(c) for c in st["clusters"])
+            st["log"] = tuple({k: (frozenset(v) if k in ("ids", "c1") else v) for k, v in e.items()} for e in st["log"])
+            st["splits"] = tuple({k: (frozenset(v) if k in ("ids", "c1", "c2") else v) for k, v in e.items()} for e in st["splits"])
+            st["labels"] = tuple(st["labels"])
+            st["iter"] = max([e["it"] for e in st["log"]] + [0])
+            K = st["K"]
+            tbl = {(st["clusters"], "any", -1): set(range(K))}
+            tbl.update({(st["clusters"], "centre", k): {k} for k in range(K)})
+            return st, tbl
         stats = {"replayed": 0, "with_split": 0, "predictions": 0, "centre_exact": 0}
-        replay_state(ck, np, cluster, st, rp["variant"], tbl, stats)
+        history = None
+        pv = rp.get("previous_behaviour_on_the_same_object")
+        if pv:   # the behaviour was replayed into an object already fitted and queried once: rebuild that object first
+            class _Quiet:
+                samples = []
+                def violation(self, *a): return True
+                def sample(self, *a, **k): pass
+            history = {}
+            st0, tbl0 = thaw(pv["state"])
+            replay_state(_Quiet(), np, cluster, st0, pv["variant"], tbl0, stats, history)
+        st, tbl = thaw(rp["state"])
+        replay_state(ck, np, cluster, st, rp["variant"], tbl, stats, history)
     elif "trace" in rp and "X" in rp:   # binding A: re-run the real fit, re-validate its trace
         c = {k: rp[k] for k in ("i", "d", "n", "kind", "wkind", "scaled", "normalize", "modifier", "max_iterations", "min_points", "style", "ctype")}
         c["X"] = np.array(rp["X"], dtype=float)
@@ -1368,7 +1395,7 @@ def main():
     if ck.violations == 0 and (rep_ev["pairs_coupled"] == 0 or rep_ev["multi_iteration_pairs"] == 0):
         raise RuntimeError("vacuity: no weighted/replicated pair with several EM iterations was validated")
 
-    stats = {"replayed": 0, "with_split": 0, "predictions": 0, "centre_exact": 0}
+    stats = {"replayed": 0, "with_split": 0, "predictions": 0, "centre_exact": 0, "refits": 0, "refits_K_decreased": 0}
     nontrivial = set()
     gen_info = []
     states = transitions = 0
@@ -1402,9 +1429,11 @@ def main():
         r.cleanup()
         if refuted[v] not in SPEC_MUTANTS[v]:
             raise RuntimeError(f"vacuity: seeded spec variant {v} was not refuted as expected (TLC: {r.status} {r.violated})")
-    for a in ["BeginIter", "CapStop", "SkipSmall", "Evaluate", "AcceptBest", "Stop", "Finalize", "Predict"]:
+    for a in ["BeginIter", "CapStop", "SkipSmall", "Evaluate", "AcceptBest", "Stop", "Finalize", "Predict", "Refit"]:
         if cov_total.get(a, (0, 0))[1] == 0:
             raise RuntimeError(f"vacuity: action {a} never taken in the generator runs")
+    if not ck.violations and stats["refits_K_decreased"] == 0:
+        raise RuntimeError("vacuity: no behaviour was replayed into an object previously fitted with MORE clusters")
 
     # ---- binding A: collect the real fits, validate their traces with TLC (HGMTrace), report monitors
     real = real_async.get()
@@ -1540,6 +1569,8 @@ def main():
         "seeded_spec_variants_refuted": refuted,
         "bindingB_replays": stats["replayed"],
         "bindingB_replays_with_accepted_split": stats["with_split"],
+        "bindingB_replays_into_an_already_fitted_and_queried_object": stats["refits"],
+        "bindingB_refits_with_fewer_clusters_than_before": stats["refits_K_decreased"],
         "bindingB_predictions_compared": stats["predictions"],
         "bindingB_centre_queries_compared_exactly": stats["centre_exact"],
         "bindingA_real_fits": real_summ,
